@@ -34,8 +34,8 @@ func die(format string, a ...any) {
 }
 
 var timeFuncs = map[string]bool{"Now": true, "Since": true, "Until": true, "Sleep": true, "After": true,
-	"AfterFunc": true, "NewTimer": true, "NewTicker": true, "Timer": true, "Ticker": true}
-var timeForbidden = map[string]bool{"Tick": true}
+	"AfterFunc": true, "NewTimer": true, "NewTicker": true, "Timer": true, "Ticker": true, "Tick": true}
+var timeForbidden = map[string]bool{}
 
 type rewriter struct {
 	fset    *token.FileSet
@@ -290,9 +290,14 @@ func (rw *rewriter) rewriteOps() {
 				}
 			case "context":
 				switch n.Sel.Name {
-				case "WithCancel", "WithTimeout", "WithDeadline", "AfterFunc":
+				case "WithCancel", "WithTimeout", "WithDeadline":
 					if strings.HasPrefix(filepath.Base(rw.fname), "udpproxy") {
 						// the UDP proxy bridges to real OS sockets and is outside every harness
+						return true
+					}
+					c.Replace(rw.shim("Ctx" + n.Sel.Name))
+				case "AfterFunc", "WithCancelCause", "WithTimeoutCause", "WithDeadlineCause", "WithoutCancel":
+					if strings.HasPrefix(filepath.Base(rw.fname), "udpproxy") {
 						return true
 					}
 					rw.fail(n, "context.%s inside instrumented code (cancellation invisible to the scheduler)", n.Sel.Name)
